@@ -212,6 +212,7 @@ pub enum TyperError {
     TooManyTemplateArguments(SourceLocation),
     TemplateInstantiationTooDeep(SourceLocation),
     FunctionTemplateNotDefined(SourceLocation),
+    FunctionNotDefined(String, SourceLocation),
 
     /// Type id with declarator modifiers are not valid for any RSSL types
     InvalidTypeDeclarator(SourceLocation),
@@ -1024,6 +1025,11 @@ impl CompileError for TyperExternalError {
             },
             TyperError::TooManyTemplateArguments(loc) => w.write_message(
                 &|f| write!(f, "too many template arguments"),
+                *loc,
+                Severity::Error,
+            ),
+            TyperError::FunctionNotDefined(name, loc) => w.write_message(
+                &|f| write!(f, "function '{}' is used but not defined", name),
                 *loc,
                 Severity::Error,
             ),
